@@ -25,9 +25,22 @@ PROP = "C11"
 TRANSIENT = {"new_state", "queue", "reboot"}
 
 
-def init_attrs(info) -> Dict[str, str]:
+def with_helpers(analysis, info):
+    """The function's own statements plus those of private methods of the same class it calls as self._x()."""
+    bodies = [info.node]
+    if info.cls is not None:
+        for c in ast.walk(info.node):
+            if isinstance(c, ast.Call) and isinstance(c.func, ast.Attribute) and isinstance(c.func.value, ast.Name) and c.func.value.id == "self" and c.func.attr.startswith("_") and not c.func.attr.startswith("__"):
+                m = analysis.p.find_method(info.cls.qual, c.func.attr)
+                if hasattr(m, "node") and m.node not in bodies:
+                    bodies.append(m.node)
+    return bodies
+
+
+def init_attrs(info, analysis=None) -> Dict[str, str]:
     out = {}
-    for n in ast.walk(info.node):
+    nodes = with_helpers(analysis, info) if analysis is not None else [info.node]
+    for n in (x for b in nodes for x in ast.walk(b)):
         if isinstance(n, ast.Assign):
             for t in n.targets:
                 if isinstance(t, ast.Attribute) and isinstance(t.value, ast.Name) and t.value.id == "self":
@@ -45,8 +58,8 @@ def run(analysis: Analysis, tier: str) -> RuleResult:
     proj, conditional_keys = json_projection(p, with_conditional=True)
     sensor = p.classes["sensor:Sensor"]
     child = p.classes["sensor:ChildSensor"]
-    s_init = init_attrs(sensor.methods["__init__"])
-    c_init = init_attrs(child.methods["__init__"])
+    s_init = init_attrs(sensor.methods["__init__"], analysis)
+    c_init = init_attrs(child.methods["__init__"], analysis)
     w = common.where(analysis, sensor.methods["__init__"], sensor.methods["__init__"].node)
     s_names = {a.lstrip("_") for a in s_init}
     enc_s = set(proj["Sensor"])
@@ -59,7 +72,14 @@ def run(analysis: Analysis, tier: str) -> RuleResult:
     resets: Dict[str, str] = {}
     loop_line = None
     conditional: Set[str] = set()
+    body = []
     for st in setstate.node.body:
+        body.append(st)
+        if isinstance(st, ast.Expr) and isinstance(st.value, ast.Call) and isinstance(st.value.func, ast.Attribute) and isinstance(st.value.func.value, ast.Name) and st.value.func.value.id == "self" and st.value.func.attr.startswith("_") and not st.value.func.attr.startswith("__"):
+            m = p.find_method(sensor.qual, st.value.func.attr)
+            if hasattr(m, "node"):
+                body.extend(x for x in m.node.body if isinstance(x, ast.Assign))
+    for st in body:
         if isinstance(st, ast.For):
             loop_line = st.lineno
         if isinstance(st, ast.Assign):
@@ -97,6 +117,14 @@ def run(analysis: Analysis, tier: str) -> RuleResult:
     for n in ast.walk(getstate.node):
         if isinstance(n, ast.For) and isinstance(n.iter, (ast.Tuple, ast.List)):
             renamed |= {e.value for e in n.iter.elts if isinstance(e, ast.Constant) and isinstance(e.value, str)}
+        elif isinstance(n, ast.For):
+            for nm in ast.walk(n.iter):
+                if isinstance(nm, ast.Name) and nm.id in getstate.module.assigns:
+                    src = getstate.module.assigns[nm.id]
+                    if isinstance(src, ast.Dict):
+                        renamed |= {k.value for k in src.keys if isinstance(k, ast.Constant) and isinstance(k.value, str)}
+                    elif isinstance(src, (ast.Tuple, ast.List)):
+                        renamed |= {e.value for e in src.elts if isinstance(e, ast.Constant) and isinstance(e.value, str)}
     setters = {"_" + name for name, pr in sensor.props.items() if "set" in pr}
     res.add("C11-R1", "sensor:Sensor.__getstate__ / renames exactly the private attributes behind a property with setter", renamed == setters, common.where(analysis, getstate, getstate.node), f"renamed {sorted(renamed)}; settable properties {sorted(setters)}")
     private = {a for a in s_init if a.startswith("_")}
@@ -128,6 +156,8 @@ def run(analysis: Analysis, tier: str) -> RuleResult:
             for n in ast.walk(br.test):
                 if isinstance(n, (ast.List, ast.Tuple)):
                     child_keys = [e.value for e in n.elts if isinstance(e, ast.Constant)]
+                elif isinstance(n, ast.Name) and n.id in dec.module.assigns and isinstance(dec.module.assigns[n.id], (ast.List, ast.Tuple)):
+                    child_keys = [e.value for e in dec.module.assigns[n.id].elts if isinstance(e, ast.Constant)]
         elif "isinstance" in t:
             kinds.append("guard")
         else:
@@ -171,6 +201,10 @@ def run(analysis: Analysis, tier: str) -> RuleResult:
             for k, v in zip(n.keys, n.values):
                 if isinstance(k, ast.Constant) and not (isinstance(v, ast.Attribute) and v.attr == k.value):
                     bad.append(f"{k.value}: {unparse(v)}")
+        elif isinstance(n, ast.DictComp) and isinstance(n.key, ast.Name):
+            ok_v = isinstance(n.value, ast.Call) and unparse(n.value.func) == "getattr" and len(n.value.args) == 2 and unparse(n.value.args[1]) == n.key.id
+            if not ok_v:
+                bad.append(f"{unparse(n.key)}: {unparse(n.value)}")
     res.add("C11-R1", "persistence:MySensorsJSONEncoder / every key is encoded from the attribute of the same name", not bad, common.where(analysis, enc, enc.node), "; ".join(bad) or "key == attribute name")
     cs = child.methods.get("__setstate__")
     if cs is not None:
